@@ -120,6 +120,24 @@ func genC09(seed int64, tier string) *Scenario {
 		sc.Ops = append(sc.Ops, Op{Kind: "config", Params: b})
 		sc.Knobs["refcap"] = true
 	}
+	if r.Intn(2) == 0 && nfiles >= 2 {
+		// a file-event phase before the queries: file U goes through one event (its content is then
+		// remembered), later one watcher batch reports U again unchanged together with a real change
+		// of V; whether anything is re-analysed must not depend on which worker finishes last
+		u, vv := sc.Files[r.Intn(len(sc.Files))], sc.Files[r.Intn(len(sc.Files))]
+		if u.Path != vv.Path && u.Path != "use.lua" && vv.Path != "use.lua" {
+			sc.Ops = append(sc.Ops, Op{Kind: "fswrite", Path: u.Path, Data: append(append(Bytes{}, u.Data...), []byte("-- touched\n")...)}, Op{Kind: "deliver"})
+			nv := append(Bytes("gmoved_marker = 1\nprint(nosuch_after_event)\n"), vv.Data...)
+			sc.Ops = append(sc.Ops, Op{Kind: "fswrite", Path: vv.Path, Data: nv}, Op{Kind: "touchq", Path: u.Path})
+			if r.Intn(2) == 0 {
+				sc.Ops = append(sc.Ops, Op{Kind: "touchq", Path: "use.lua"})
+			}
+			sc.Ops = append(sc.Ops, Op{Kind: "deliver"})
+			sc.Knobs["events"] = true
+			other0 := vv.Path
+			sc.Ops = append(sc.Ops, Op{Kind: "req", Method: "workspaceSymbol", Arg: "gmoved"}, Op{Kind: "req", Method: "documentSymbol", Path: other0})
+		}
+	}
 	sc.Ops = append(sc.Ops, Op{Kind: "open", Path: "use.lua"})
 	pos := identPositions(useText)
 	r.Shuffle(len(pos), func(i, j int) { pos[i], pos[j] = pos[j], pos[i] })
